@@ -163,7 +163,7 @@ def check_stream(sources, opts, M, case):
                     M.violation("C17.stream", {"what": "envelopes yielded for an earlier source were modified while a later source was processed",
                                                "position": n}, case)
                     return
-            uri = "features/s%d.feature" % n
+            uri = "features/s%d.feature" % sources.index(text)      # equal texts arrive under the same uri
             before = sum(1 for d in obs.ids if d[2] == id(ge.id_generator))
             st, envs, opened, _ = observe.enum_observed(text, uri=uri, events=ge)
             if st != "ok":
@@ -181,6 +181,50 @@ def check_stream(sources, opts, M, case):
                 M.violation("C17.stream", {"what": "envelopes of a source inside a stream differ from its solo envelopes shifted by the ids drawn before it",
                                            "position": n, "ids_drawn_before": before, "got": short(envs, 300), "want": short(want, 300)}, case)
                 return
+
+
+def _strip_ids(o):
+    if isinstance(o, dict):
+        return {k: _strip_ids(v) for k, v in o.items() if k not in ("id", "astNodeId", "astNodeIds")}
+    if isinstance(o, list):
+        return [_strip_ids(x) for x in o]
+    return o
+
+
+def check_round_robin(sources, opts, M, case):
+    """Several enum() generators of ONE GherkinEvents object, advanced in turns by the consumer (zip-like): every generator
+    yields the envelopes of its own source — the same as alone, ids aside — and no id is handed out twice."""
+    ge = GherkinEvents(GherkinEvents.Options(*opts))
+    uris = ["features/r%d.feature" % k for k in range(len(sources))]
+    gens = [ge.enum({"source": {"uri": u, "data": t, "mediaType": MEDIA}}) for u, t in zip(uris, sources)]
+    got = [[] for _ in sources]
+    live = list(range(len(sources)))
+    M.count("round_robin_streams")
+    try:
+        while live:
+            for k in list(live):
+                try:
+                    got[k].append(next(gens[k]))
+                except StopIteration:
+                    live.remove(k)
+    except Exception as e:
+        if any(os.path.exists(t) for t in sources if len(t) < 300):
+            return
+        M.violation("C17.crash", {"what": "exception while several enum() generators of one GherkinEvents were advanced in turns", "error": repr(e)[:200]}, case)
+        return
+    seen = []
+    for k, (u, t) in enumerate(zip(uris, sources)):
+        st, solo, opened, _ = observe.enum_observed(t, uri=u, options=opts)
+        if st != "ok":
+            return
+        M.count("round_robin_envelopes_compared", len(solo))
+        if _strip_ids(got[k]) != _strip_ids(solo):
+            M.violation("C17.stream", {"what": "an enum() generator advanced in turns with other generators of the same GherkinEvents yields other envelopes than alone (ids aside)",
+                                       "position": k, "got": short(_strip_ids(got[k]), 300), "want": short(_strip_ids(solo), 300)}, case)
+            return
+        seen += all_ids([e for e in got[k] if "source" not in e])
+    if len(set(seen)) != len(seen):
+        M.violation("C17.stream", {"what": "an id was handed out twice among generators of one GherkinEvents advanced in turns"}, case)
 
 
 def run_corpus(M):
@@ -382,7 +426,12 @@ def run_shard(spec, M):
             r = rng(seed, ID, "stream", i)
             sources = [make_source(r, r.randrange(10)) for _ in range(r.randint(2, 6))]
             opts = OPTS[i % 8]
+            if r.random() < 0.4:
+                sources.insert(r.randint(1, len(sources)), sources[r.randrange(len(sources))])        # the same source once more
+                M.count("streams_with_a_repeated_source")
             check_stream(sources, opts, M, {"kind": "stream", "sources": sources, "options": list(opts)})
+            if i % 3 == 0:
+                check_round_robin(sources[:3], opts, M, {"kind": "round_robin", "sources": sources[:3], "options": list(opts)})
     elif fam == "corpus":
         run_corpus(M)
     elif fam == "files":
@@ -405,6 +454,8 @@ def replay(case, M):
         check_stream(case["sources"], tuple(case["options"]), M, case)
     elif k == "corpus":
         run_corpus(M)
+    elif k == "round_robin":
+        check_round_robin(case["sources"], tuple(case["options"]), M, case)
     elif k == "isolation":
         run_isolation({"seed": 0, "sample": 0}, M)
     else:
